@@ -774,6 +774,24 @@ func r08HotPixelOwnership(c *core.Ctx) {
 		return ok && isFieldRead(lk.X, "quadrants")
 	}
 	n := 0
+	// insertCoord itself, or a helper that only insertCoord (or such a helper) calls
+	callersOf := callersIndex(c)
+	var ownedByInsertCoord func(fn *ssa.Function, depth int) bool
+	ownedByInsertCoord = func(fn *ssa.Function, depth int) bool {
+		if fn == ici.SSA {
+			return true
+		}
+		sites := callersOf(fn)
+		if depth > 3 || len(sites) == 0 {
+			return false
+		}
+		for _, s := range sites {
+			if !ownedByInsertCoord(s.Parent(), depth+1) {
+				return false
+			}
+		}
+		return true
+	}
 	for _, fn := range allModFuncs(c.P) {
 		for _, b := range fn.Blocks {
 			for _, in := range b.Instrs {
@@ -784,7 +802,7 @@ func r08HotPixelOwnership(c *core.Ctx) {
 				switch {
 				case isQuadrantsInner(mu.Map):
 					n++
-					c.Check(R, "hot-pixel-writer/"+shortFn(fn), mu.Pos(), fn == ici.SSA, "pixels are stored by insertCoord only", "the hot-pixel set is written in "+fn.String()+" (only insertCoord may add pixels, after the range check)")
+					c.Check(R, "hot-pixel-writer/"+shortFn(fn), mu.Pos(), ownedByInsertCoord(fn, 0), "pixels are stored by insertCoord only", "the hot-pixel set is written in "+fn.String()+" (only insertCoord may add pixels, after the range check)")
 				case isFieldRead(mu.Map, "quadrants"):
 					_, isMake := mu.Value.(*ssa.MakeMap)
 					c.Check(R, "level-table-init/"+shortFn(fn), mu.Pos(), isMake, "per-level table initialised with an empty map", "ix.quadrants[level] is assigned something other than a fresh empty map in "+fn.String())
